@@ -183,8 +183,12 @@ def run(ctx):
         form_shapes = [(2, 2), (3, 2), (2, 3), (1, 4)] + ([(4, 2), (2, 5)] if ctx.thorough else [])
         for fi, (N, W) in enumerate(form_shapes):
             n = N * W
-            A = rng.integers(-2, 3, size=(n, n + 1 + fi % 2))
-            Sv = (A @ A.T + (fi % 3) * np.eye(n, dtype=np.int64)).astype(np.int64)
+            A = rng.integers(-1, 2, size=(n, n))
+            # well-conditioned integer-valued covariances (the solver stops within a few dozen iterations on them)
+            Sv = [2 * np.eye(n, dtype=np.int64),
+                  np.kron(np.eye(W, dtype=np.int64), 2 * np.eye(N, dtype=np.int64) + np.ones((N, N), dtype=np.int64)),
+                  np.diag(np.arange(1, n + 1)).astype(np.int64),
+                  (A @ A.T + 2 * n * np.eye(n, dtype=np.int64)).astype(np.int64)][fi % 4]
             for form in ("int64", "int32", "float32", "fortran", "strided", "readonly"):
                 if form in ("int64", "int32", "float32"):
                     Sf = Sv.astype(form)
@@ -197,7 +201,7 @@ def run(ctx):
                 else:
                     Sf = Sv.astype(np.float64)
                     Sf.setflags(write=False)
-                lam = [0.11, 0.0, 1.0][fi % 3]
+                lam = [0.5, 0.25, 0.1, 0.11][fi % 4]
                 case = {"N": N, "W": W, "cov": "integer-valued as " + form, "lam": lam, "lam_value": lam, "rho": 1.0, "callback": False,
                         "S_hex": [[float(v).hex() for v in row] for row in Sv], "S_form": form}
                 rec = None
@@ -207,6 +211,7 @@ def run(ctx):
                 if rec is None or rec["exit"] is None:
                     continue
                 hist["cov"][form] = hist["cov"].get(form, 0) + 1
+                hist["not_converged"] += rec["stop"] is None
                 certificate(ctx, N, W, Sv.astype(np.float64), lam, 1.0, rec, case, None)
         # (d) unconditional clause: rho = 1, no callback, eig(S) in [0.25, 4], lambda in [0,1]
         worst = 0
